@@ -120,6 +120,18 @@ func c11NewGraph(r *kit.Rand, forXWrite bool, cryptFilters bool) *c11Graph {
 			} else if r.Bool() {
 				raw = kit.Deflate(body)
 				d["Filter"] = kit.XName("FlateDecode")
+				if r.Chance(1, 3) {
+					// parameters that hold a reference below the top level (as /JBIG2Globals does)
+					parms := kit.XDict{"Predictor": int64(1), "JBIG2Globals": kit.Pick(r, refs), "Extra": kit.XArray{kit.Pick(r, refs)}}
+					switch r.Intn(2) {
+					case 0:
+						d["DecodeParms"] = parms
+					case 1:
+						d["Filter"] = kit.XArray{kit.XName("FlateDecode")}
+						d["DecodeParms"] = kit.XArray{parms}
+					}
+					g.hasFeat["reference-inside-DecodeParms"] = true
+				}
 				if forXWrite && r.Chance(1, 3) {
 					d["Filter"] = kit.XArray{kit.XName("FlateDecode")}
 					d["DecodeParms"] = kit.XArray{nil}
@@ -169,6 +181,9 @@ type c11Iso struct {
 	visited  map[uint32]bool
 	failed   bool
 	chainHit bool
+	// the source file spells /Filter and /DecodeParms as the model does (true for sources
+	// rendered by xwrite; the library's Writer chooses its own spelling)
+	filtersAsInModel bool
 }
 
 func (m *c11Iso) fail(key, format string, args ...any) {
@@ -177,6 +192,17 @@ func (m *c11Iso) fail(key, format string, args ...any) {
 	}
 	m.failed = true
 	m.c.Violationf(key, "%s\n%s", m.ctx, fmt.Sprintf(format, args...))
+}
+
+// resolveTop follows a source reference (chains included) to its value.
+func (m *c11Iso) resolveTop(v any) any {
+	if ref, ok := v.(kit.XRef); ok {
+		if _, val, ok := m.g.terminal(ref); ok {
+			return val
+		}
+		return nil
+	}
+	return v
 }
 
 func (m *c11Iso) dstGet(ref kit.XRef) (pdf.Native, bool) {
@@ -290,6 +316,40 @@ func (m *c11Iso) same(path string, src any, dst pdf.Object, viaChain bool) {
 			}
 		}
 		m.same(path+".dict", sd, gen.StripStreamKeys(ds.Dict), false)
+		// the filter description: the Copier writes /Filter and /DecodeParms with their
+		// top-level and array-level references resolved; anything below keeps its
+		// place in the graph (a reference inside a parameter dictionary must be translated)
+		for _, key := range []string{"Filter", "DecodeParms"} {
+			sv, has := s.Dict[key]
+			if !has || sv == nil || !m.filtersAsInModel {
+				continue
+			}
+			sv = m.resolveTop(sv)
+			if arr, ok := sv.(kit.XArray); ok {
+				out := make(kit.XArray, len(arr))
+				for i, e := range arr {
+					out[i] = m.resolveTop(e)
+				}
+				sv = out
+			}
+			dv := ds.Dict[pdf.Name(key)]
+			if key == "DecodeParms" {
+				// [null] and an absent entry are the same parameters
+				if arr, ok := sv.(kit.XArray); ok {
+					allNull := true
+					for _, e := range arr {
+						if e != nil {
+							allNull = false
+						}
+					}
+					if allNull && dv == nil {
+						continue
+					}
+				}
+			}
+			m.same(path+"."+key, sv, dv, false)
+			m.c.R.Count("filter_descriptions_compared", 1)
+		}
 	case kit.XArray:
 		da, ok := dst.(pdf.Array)
 		if !ok {
@@ -631,7 +691,7 @@ func TestVerifC11(t *testing.T) {
 		}
 		sort.Strings(feats)
 		ctx := fmt.Sprintf("source %s (%d objects, features %v), target %s\nops: %s", srcKind, len(g.nums), feats, tcfg.String(), strings.Join(ops, " "))
-		iso := &c11Iso{c: c, g: g, dst: dst, fwd: map[uint32]kit.XRef{}, rev: map[kit.XRef]uint32{}, redirect: redirect, ctx: ctx}
+		iso := &c11Iso{c: c, g: g, dst: dst, fwd: map[uint32]kit.XRef{}, rev: map[kit.XRef]uint32{}, redirect: redirect, ctx: ctx, filtersAsInModel: viaXWrite}
 		for _, rt := range roots {
 			if sref, isRef := rt.src.(kit.XRef); isRef {
 				iso.same(rt.lbl, sref, rt.dst, false)
